@@ -20,6 +20,9 @@ CHECKS["C17"] = dict(cat="other", tech="SMT (z3) over the traced IR of Transform
 CHECKS["C01"] = dict(cat="other", tech="SMT (z3, QF_NRA with guarded division flattening) over the traced IR of init_fn+step_fn per enumerated structure: conductance lemmas + scheme-row identities; spsolve as contract stub; Stone kernels by kernel lemmas",
    text="Bounded symbolic verification: for every tree shape with <=3 branches (<=4 thorough) x compartment counts x solver x backend, plus branches, a compartment and small networks, z3 proves for ALL positive parameters, voltages, stimuli and dt that each traced axial conductance equals the physical formula of its edge and that the traced new voltages satisfy every row of an independently assembled discretised cable equation with Kirchhoff branch points. Structure is enumerated (the bound); all floating-point quantities are solver variables. Non-unsat verdicts are replayed on the real API against a dense numpy solve.",
    note="exact real arithmetic; spsolve replaced by its documented contract (CSR, A y = b) with A shown weakly chained diagonally dominant; tridiax Stone kernels replaced by serial recurrences justified by kernel lemmas (n<=4/8); uniqueness via diagonal dominance is trusted mathematics", ref="6 C01")
+CHECKS["C02"] = dict(cat="other", tech="SMT (z3, QF_NRA) over the traced IR: reciprocity lemmas on traced conductances, charge identity and uniform state on the traced output, discrete maximum principle by per-argmax case split on the linear system the output satisfies",
+   text="Bounded symbolic verification per enumerated structure (as C01, smaller family): z3 proves for all positive parameters and any dt>0 that the traced conductances are reciprocal, that the traced new voltages satisfy the total-charge identity and keep a uniform passive state uniform, and that backward Euler never overshoots (2(N+#bp) arg-max queries on the system the output is shown to satisfy; for jax.sparse the CSR rows from the IR). Current-response reciprocity is direct for <=3 compartments and compositional beyond.",
+   note="exact real arithmetic; same stubs as C01; reciprocity for larger instances rests on the symmetric-inverse theorem; dt unbounded above", ref="6 C02")
 NA = {}
 checks = []
 for pid, c in CHECKS.items():
